@@ -350,6 +350,48 @@ def run(ctx):
                 ctx.report("disamb-shape:" + unit[:90], "%r with a declared as a %s: delivered %s, C groups it as %s" % (expr, "typedef name" if is_type else "variable", gs, sx(want)),
                            {"component": "tree", "case": "%s a %s" % (OPTS, unit.encode().hex()), "expected": sx(want)})
             nviol += 1
+    # ---- 3b. the Lean model of the re-association (Rotate.lean; theorem reassociation_is_C) <-> the real disambiguator: the PARSER's tree
+    # (disambiguation mode None keeps the ambiguity node) is fed to the model's slot function; its result must be the delivered tree
+    NODE2OP = {v[3]: 100 * v[1] + i for i, (k, v) in enumerate(BIN.items())}
+    UNARY = {k: i + 1 for i, k in enumerate(sorted(set(UN.values()) | {"PreIncrementExpression", "PreDecrementExpression"}))}
+
+    def tox(e):
+        k = e[0]
+        if k in NODE2OP:
+            return "B %d %s %s" % (NODE2OP[k], tox(e[1]), tox(e[2]))
+        if k == "AmbiguousCastOrBinaryExpression":
+            b = e[2]
+            return "M %d A 0 %s" % (NODE2OP[b[0]], tox(b[2]))
+        if k == "CastExpression":
+            return "U 99 %s" % tox(e[2])
+        if k in UNARY:
+            return "U %d %s" % (UNARY[k], tox(e[1]))
+        return "A 0"                       # identifiers, constants, the parenthesised name
+    OPTS0 = OPTS.split(",")
+    OPTS0[3] = "0"
+    OPTS0 = ",".join(OPTS0)
+    vcases = [(unit, expr) for unit, expr, is_type, want in cases3 if not is_type and want is not None]
+    ptrees = stages.run_harness(ctx, "tree", ["%s a %s" % (OPTS0, u.encode().hex()) for u, _ in vcases])
+    dtrees = [i for (unit, expr, is_type, want), i in zip(cases3, impl3) if not is_type and want is not None]
+    feed, keep = [], []
+    for (unit, expr), pt, dt in zip(vcases, ptrees, dtrees):
+        if pt.startswith(("CRASH", "HANG")) or dt.startswith(("CRASH", "HANG")):
+            continue
+        pw, dw = dump_to_sexpr(pt), dump_to_sexpr(dt)
+        pe, de = (find_stmt(pw) if pw else None), (find_stmt(dw) if dw else None)
+        if pe is None or de is None or "AmbiguousCastOrBinaryExpression" not in sx(pe):
+            continue
+        feed.append(tox(pe)); keep.append((unit, expr, tox(de)))
+    rmodel = leanb.model("rotate", "\n".join(feed) + "\n") if feed else []
+    nrot = 0
+    for (unit, expr, delivered), m in zip(keep, rmodel):
+        if m.split(" | ")[0] != delivered or "tokens=1" not in m:
+            nrot += 1
+            if nrot <= 3:
+                ctx.report("corr-rotate:" + expr, "%r: the disambiguator delivers %s, the Lean model of its re-association rules gives %s from the parser's tree" % (expr, delivered, m),
+                           {"component": "tree", "case": "%s a %s" % (OPTS, unit.encode().hex()), "theorem": "PsycheModel.Rotate.reassociation_is_C (correspondence)"}, no_input=True)
+    ctx.notes["reassociation_model_cases"] = len(keep)
+    ctx.notes["reassociation_model_disagreements"] = nrot
     ctx.notes["disambiguated_shapes"] = len(cases3)
     ctx.cov.update({
         "evaluations": len(seqs) + len(cases) + len(cases3), "distinct_nontrivial": len(shapes) + len(seqs), "traces_validated_against_impl": len(seqs), "exhaustive": not ctx.quick,
